@@ -84,19 +84,287 @@ def firstBroken (h : Hist) : List Ev → Option String
     | some c => some c.1
     | none => firstBroken ((op, r) :: h) t
 
+/-! ### comparison key that is blind to repeated reports
+
+The property lets a stream coalesce updates and does not ask for a report when a status is set
+again to the value the stream delivered last (nor forbid one), so two implementations that
+both satisfy every clause may differ in such reports — and, after them, in where `pend` / `end`
+answers fall.  The line compared by `check` is therefore `<exact answers> # <report key>`:
+
+* sequential cases (`seq`): the polls are fixed by the case, so the report key (`r<w>=<digits>`:
+  statuses delivered on stream `w`, immediate repetitions removed) is the same for every such
+  implementation.  It is computed by the harness from what it observed and by this driver from
+  the model and compared literally.  The exact part is compared literally too, unless the two
+  sides differ *only* in stream answers while every clause of the property holds on the observed
+  answers, the answers that do not come from a stream agree position by position and the report
+  keys agree: then the driver repeats the observed exact part (it stays in the evidence as the
+  secondary token).
+* parked-watcher cases (`park`): whether a task is still parked — and so which later updates
+  it gets to see — itself depends on such a repeated report, so the keys need not agree.  Here
+  the model is run *along* the observation (`acceptPark`): every observed answer must be the
+  model's, or differ from it by one repeated report (left out, or made where the model is
+  silent); who is parked follows the observation.  If the model accepts, the driver repeats
+  the observed line (exact part and key as recomputed from it); otherwise it prints its own.
+* concurrent cases (`conc`): the linearization search is run with the model (`Health.accept`)
+  and, if that finds none, with the same tolerant acceptor (`acceptMD`).
+
+The verdict is always computed from the exact observed answers. -/
+
+def stDigit : St → String := stTok
+
+/-- statuses delivered on stream `w`, immediate repetitions removed -/
+def reportsOf (w : Nat) : List (Nat × Resp) → Option St → List St
+  | [], _ => []
+  | (w', .value s) :: rest, last =>
+    if w' = w then
+      (if last = some s then reportsOf w rest last else s :: reportsOf w rest (some s))
+    else reportsOf w rest last
+  | _ :: rest, last => reportsOf w rest last
+
+def reportKey (nslots : Nat) (polls : List (Nat × Resp)) : List String :=
+  "#" :: (List.range nslots).map (fun w =>
+    "r" ++ toString w ++ "=" ++ String.join ((reportsOf w polls none).map stDigit))
+
+def isWatch : Op → Bool
+  | .watch _ => true
+  | _ => false
+
+def streamAnswer : Resp → Bool
+  | .value _ => true
+  | .pending => true
+  | .ended => true
+  | _ => false
+
+def pollsOfSeq (evs : List Ev) : List (Nat × Resp) :=
+  evs.filterMap (fun (op, r) => match op with
+    | .next w => some (w, r)
+    | _ => none)
+
+/-- answers that do not come from a stream, in place -/
+def maskedSeq (evs : List Ev) : List (Option Resp) :=
+  evs.map (fun (op, r) => match op with
+    | .next _ => if streamAnswer r then none else some r
+    | _ => some r)
+
+def splitHash : List String → List String × List String
+  | [] => ([], [])
+  | "#" :: rest => ([], "#" :: rest)
+  | t :: rest => let (a, b) := splitHash rest; (t :: a, b)
+
 def handleSeq (ops : List Op) (obs : List String) : String × String :=
   let rs := Health.run Health.init ops
-  let model := String.intercalate " " (rs.map respTok)
-  let verdict :=
-    if obs == ["panic"] then "fail:panic"
-    else match obs.mapM respOf with
-      | none => "fail:unrecognised-answer"
+  let nslots := ops.countP isWatch
+  let mexact := rs.map respTok
+  let mkey := reportKey nslots (pollsOfSeq (ops.zip rs))
+  let (oexact, _) := splitHash obs
+  let (verdict, same) :=
+    if obs == ["panic"] then ("fail:panic", false)
+    else match oexact.mapM respOf with
+      | none => ("fail:unrecognised-answer", false)
       | some ors =>
-        if ors.length != ops.length then "fail:answer-count"
+        if ors.length != ops.length then ("fail:answer-count", false)
         else match firstBroken [] (ops.zip ors) with
-          | some c => "fail:" ++ c
-          | none => "ok"
-  (model, verdict)
+          | some c => ("fail:" ++ c, false)
+          | none =>
+            ("ok", maskedSeq (ops.zip ors) == maskedSeq (ops.zip rs)
+                && reportKey nslots (pollsOfSeq (ops.zip ors)) == mkey)
+  (String.intercalate " " ((if same then oexact else mexact) ++ mkey), verdict)
+
+/-! ### parked watchers -/
+
+/-- The model as an acceptor that is blind to repeated reports (see the comparison key above):
+besides the model's own answer it accepts, for a poll of a stream, (a) the answer the model
+would give after delivering once more the status the stream delivered last (the implementation
+left that repeated report out), and (b) a repetition of the status delivered last where the
+model has nothing to deliver.  `last` = status delivered last, per slot. -/
+structure MD where
+  h : H
+  last : List (Nat × St)
+
+def MD.lastOf (s : MD) (w : Nat) : Option St := (s.last.find? (fun p => p.1 == w)).map (·.2)
+
+def acceptMD (s : MD) (op : Op) (r : Resp) : Option MD :=
+  let m := step s.h op
+  let note (h' : H) : MD := match op, r with
+    | .next w, .value v => ⟨h', (w, v) :: s.last.filter (fun p => p.1 != w)⟩
+    | _, _ => ⟨h', s.last⟩
+  if m.2 = r then some (note m.1)
+  else match op, m.2 with
+    | .next w, .value v =>
+      if s.lastOf w = some v then
+        let m2 := step m.1 op
+        if m2.2 = r then some ⟨m2.1, s.last⟩ else none
+      else none
+    | .next w, .pending =>
+      match r with
+      | .value v => if s.lastOf w = some v then some s else none
+      | _ => none
+    | _, _ => none
+
+/-- One poll of stream `w` answered `ro` by the implementation (`pending` also stands for "the
+awaiting task stayed parked"): the model state afterwards if the answer is the model's, or
+differs from it only by a repeated report (see `acceptMD`). -/
+def pollMD (h : H) (last : List (Nat × St)) (w : Nat) (ro : Resp) : Option (H × List (Nat × St)) :=
+  (acceptMD ⟨h, last⟩ (.next w) ro).map (fun s => (s.h, s.last))
+
+/-- The model with awaiting watchers as an acceptor of an observed history, blind to repeated
+reports: who is parked follows the observation (a task that was not given a repeated report is
+still parked), every answer must be the model's up to such reports. -/
+structure PMD where
+  h : H
+  parked : List Nat
+  last : List (Nat × St)
+
+def acceptItem (s : PMD) (it : Item) (o : Out) : Option PMD :=
+  match it with
+  | .await w =>
+    if s.parked.contains w then (if o.ans == .busy && o.woken.isEmpty then some s else none)
+    else if !o.woken.isEmpty then none
+    else match o.ans with
+      | .parked => (pollMD s.h s.last w .pending).map (fun (h, l) => ⟨h, w :: s.parked, l⟩)
+      | .plain .pending => none
+      | .plain r => (pollMD s.h s.last w r).map (fun (h, l) => ⟨h, s.parked, l⟩)
+      | .busy => none
+  | .op o' =>
+    let held := match o' with
+      | .next w => s.parked.contains w
+      | _ => false
+    if held then (if o.ans == .busy && o.woken.isEmpty then some s else none)
+    else match o.ans with
+      | .plain r =>
+        match acceptMD ⟨s.h, s.last⟩ o' r with
+        | none => none
+        | some s1 =>
+          let parked1 := match o' with
+            | .drop w => s.parked.filter (fun x => x != w)
+            | _ => s.parked
+          if !o.woken.all (fun p => parked1.contains p.1) then none
+          else
+            -- every parked task: completed with what the observation says, or stayed parked
+            parked1.foldlM (fun (acc : PMD) w =>
+              let ro := match o.woken.find? (fun p => p.1 == w) with
+                | some p => p.2
+                | none => .pending
+              (pollMD acc.h acc.last w ro).map (fun (h, l) =>
+                ⟨h, if ro == .pending then acc.parked else acc.parked.filter (fun x => x != w), l⟩))
+              ⟨s1.h, parked1, s1.last⟩
+      | _ => none
+
+def acceptPark : PMD → List (Item × Out) → Option PMD
+  | s, [] => some s
+  | s, (it, o) :: t => (acceptItem s it o).bind (fun s' => acceptPark s' t)
+
+
+def parseItems : Nat → List String → Option (List Item)
+  | 0, _ => none
+  | _, [] => some []
+  | f + 1, "a" :: w :: rest => do
+    let w ← nat? w
+    (Item.await w :: ·) <$> parseItems f rest
+  | f + 1, toks =>
+    -- one op: find how many tokens it takes
+    let n := match toks with
+      | "s" :: _ => 4
+      | "sv" :: _ => 2
+      | "nsv" :: _ => 2
+      | "c" :: _ => 3
+      | "k" :: _ => 3
+      | "w" :: _ => 3
+      | "n" :: _ => 2
+      | "d" :: _ => 2
+      | _ => 0
+    if n == 0 || toks.length < n then none
+    else match parseOps 2 (toks.take n) with
+      | some [o] => (Item.op o :: ·) <$> parseItems f (toks.drop n)
+      | _ => none
+
+def ansTok : Ans → String
+  | .plain r => respTok r
+  | .parked => "parked"
+  | .busy => "busy"
+
+def ansOf : String → Option Ans
+  | "parked" => some .parked
+  | "busy" => some .busy
+  | t => (respOf t).map .plain
+
+def sortBySlot (l : List (Nat × Resp)) : List (Nat × Resp) := l.mergeSort (fun a b => a.1 ≤ b.1)
+
+def outToks (o : Out) : List String :=
+  ansTok o.ans :: (sortBySlot o.woken).map (fun (w, r) => "wk" ++ toString w ++ ":" ++ respTok r)
+
+/-- `<pre><w>:<answer>` -/
+def slotAns? (pre : String) (t : String) : Option (Nat × Resp) :=
+  if t.startsWith pre then
+    match (t.drop pre.length).toString.splitOn ":" with
+    | [w, a] => do let w ← nat? w; let a ← respOf a; pure (w, a)
+    | _ => none
+  else none
+
+/-- observed tokens of the items: one answer, then its `wk` tokens -/
+def parseOuts : List Item → List String → Option (List Out × List String)
+  | [], rest => some ([], rest)
+  | _ :: its, t :: rest => do
+    let a ← ansOf t
+    let wk := rest.takeWhile (·.startsWith "wk")
+    let rest' := rest.dropWhile (·.startsWith "wk")
+    let wk ← wk.mapM (slotAns? "wk")
+    let (os, tail) ← parseOuts its rest'
+    pure (⟨a, wk⟩ :: os, tail)
+  | _ :: _, [] => none
+
+/-- `fin` then `idle<w>` / `late<w>:<answer>` -/
+def parseFin : List String → Option (List Nat × List (Nat × Resp))
+  | "fin" :: rest => rest.foldlM (fun (acc : List Nat × List (Nat × Resp)) t =>
+      if t.startsWith "idle" then (nat? (t.drop 4).toString).map (fun w => (acc.1 ++ [w], acc.2))
+      else (slotAns? "late" t).map (fun p => (acc.1, acc.2 ++ [p]))) ([], [])
+  | _ => none
+
+def pollsOfPark (ios : List (Item × Out)) (late : List (Nat × Resp)) : List (Nat × Resp) :=
+  ios.flatMap (fun (it, o) =>
+    (match it, o.ans with
+      | .await w, .plain r => [(w, r)]
+      | .op (.next w), .plain r => [(w, r)]
+      | _, _ => []) ++ o.woken) ++ late
+
+def itemIsWatch : Item → Bool
+  | .op (.watch _) => true
+  | _ => false
+
+def handlePark (items : List Item) (obs : List String) : String × String :=
+  let outs := Health.prun Health.pinit items
+  let fin := (Health.pexec Health.pinit items).parked.mergeSort (fun a b => a ≤ b)
+  let nslots := items.countP itemIsWatch
+  let mexact := outs.flatMap outToks ++ ["fin"] ++ fin.map (fun w => "idle" ++ toString w)
+  let mkey := reportKey nslots (pollsOfPark (items.zip outs) [])
+  let (oexact, _) := splitHash obs
+  let (verdict, same) : String × Option (List String) :=
+    if obs == ["panic"] then ("fail:panic", none)
+    else match parseOuts items oexact with
+      | none => ("fail:unrecognised-answer", none)
+      | some (oouts, tail) =>
+        match parseFin tail with
+        | none => ("fail:unrecognised-answer", none)
+        | some (idle, late) =>
+          match Spec.Health.checkPark [] [] (items.zip oouts) with
+          | .error c => ("fail:" ++ c, none)
+          | .ok (h, pk) =>
+            -- a task that completed only when the clock was moved: judged like any completion
+            match Spec.Health.checkWoken h pk late with
+            | .error c => ("fail:" ++ c, none)
+            | .ok (_, pk') =>
+              if pk'.mergeSort (fun a b => a ≤ b) != idle.mergeSort (fun a b => a ≤ b) then
+                ("fail:answer-count", none)
+              else
+                -- the model follows the observation up to repeated reports (`acceptPark`)
+                match acceptPark ⟨Health.init, [], []⟩ (items.zip oouts) with
+                | some s =>
+                  ("ok", if late.isEmpty && s.parked.mergeSort (fun a b => a ≤ b) == idle.mergeSort (fun a b => a ≤ b)
+                    then some (reportKey nslots (pollsOfPark (items.zip oouts) late)) else none)
+                | none => ("ok", none)
+  match same with
+  | some okey => (String.intercalate " " (oexact ++ okey), verdict)
+  | none => (String.intercalate " " (mexact ++ mkey), verdict)
 
 /-! concurrent histories -/
 
@@ -169,7 +437,9 @@ def handleConc (progs : List (List Op)) (obs : List String) : String × String :
         (recs.filter (fun x => x.1 == tid)).length < ops.length)
       if short then ("not-linearizable", "fail:answer-count")
       else
-        let m := Lin.linearizable Health.accept (fun s => s.watchers.length) Health.init tasks
+        let m := match Lin.linearizable Health.accept (fun s => s.watchers.length) Health.init tasks with
+          | .no => Lin.linearizable acceptMD (fun s => s.h.watchers.length) ⟨Health.init, []⟩ tasks
+          | r => r
         let v := Lin.linearizable Spec.Health.accept Spec.Health.numWatches [] tasks
         -- a search that ran out of budget decides nothing (neither a disagreement nor a failure)
         (if m == .no then "not-linearizable" else String.intercalate " " obs,
@@ -181,6 +451,10 @@ def handle (case obs : List String) : String × String :=
     match parseOps (rest.length + 1) rest with
     | none => bad
     | some ops => handleSeq ops obs
+  | "park" :: rest =>
+    match parseItems (rest.length + 1) rest with
+    | none => bad
+    | some items => handlePark items obs
   | "conc" :: seed :: rest =>
     match nat? seed, (splitBar rest).mapM (fun p => parseOps (p.length + 1) p) with
     | some _, some progs =>
